@@ -768,6 +768,62 @@ pub async fn c08_io(seed: u64, thorough: bool) {
         let kind = if !seen_err { "all-delivered".to_string() } else { format!("ends-{}", items.last().unwrap()) };
         *kinds.entry(kind).or_default() += 1;
     }
+    // Ranges beyond the reader's 1 MiB block (sizes that are not multiples of it, back to back and apart), under
+    // whole and fragmented reads: judged by the exactness oracle alone (the list model would need millions of steps)
+    let n_big = if thorough { 24 } else { 6 };
+    for case in 0..n_big {
+        let mib = 1usize << 20;
+        let sizes = [mib + 1, mib - 1, 2 * mib + 12345, mib, 3 * mib / 2, 700_001];
+        let mut lay: Vec<(u64, usize)> = Vec::new();
+        let mut off = rng.range(0, 5000);
+        for k in 0..3 {
+            let sz = sizes[(case + 2 * k) % sizes.len()];
+            lay.push((off, sz));
+            off += sz as u64 + if (case + k) % 2 == 0 { 0 } else { rng.range(1, 9000) };
+        }
+        if case % 3 == 2 {
+            lay.swap(0, 2);
+        }
+        let flen = off as usize + 10;
+        let data = h::pattern(flen);
+        let script: Vec<ReadEv> = match case % 3 {
+            0 => vec![],
+            1 => (0..40).map(|_| ReadEv::Bytes(rng.range(1, 300_000) as usize)).collect(),
+            _ => (0..12).flat_map(|_| vec![ReadEv::Bytes(rng.range(1, mib as u64 + 7) as usize), ReadEv::Pending]).collect(),
+        };
+        let req = format!("io-big {} {} script={}", flen, chunks_token(&lay), script.len());
+        println!("TRY\t{}", req);
+        let file = ScriptedFile::new(data.clone(), script);
+        let chunks: Vec<ChunkOffset> = lay.iter().map(|&(o, s)| ChunkOffset::new(o, s)).collect();
+        let res = tokio::time::timeout(std::time::Duration::from_secs(60), tokio::spawn(async move {
+            let mut reader = IoReader::new(file);
+            let mut out: Vec<Result<Vec<u8>, ()>> = Vec::new();
+            let mut stream = reader.read_chunks(chunks);
+            while let Some(r) = stream.next().await {
+                match r {
+                    Ok(b) => out.push(Ok(b.to_vec())),
+                    Err(_) => {
+                        out.push(Err(()));
+                        break;
+                    }
+                }
+            }
+            out
+        }))
+        .await;
+        match res {
+            Err(_) => h::hung(&req),
+            Ok(Err(_)) => h::emit_oracle_fail("local-reader-panic", &req),
+            Ok(Ok(items)) => {
+                let exact = items.len() == lay.len()
+                    && items.iter().zip(lay.iter()).all(|(it, &(o, s))| matches!(it, Ok(b) if b[..] == data[o as usize..o as usize + s]));
+                if !exact {
+                    h::emit_oracle_fail("local-not-exact-prefix-then-error", &req);
+                }
+            }
+        }
+        *kinds.entry("big-ranges".to_string()).or_default() += 1;
+    }
     // Sequences of calls on ONE reader whose file handle starts anywhere: `read_at` and `read_chunks`
     // interleaved, lists that start at offset 0, at the position the previous call ended at, or
     // before it.  Every call must deliver exactly its ranges (the model seeks per call, so the
